@@ -32,6 +32,11 @@ impl TransitionRule {
 
         let tz_string = footer.trim_matches(|c: char| c.is_ascii_whitespace());
 
+        // An empty footer is valid: the file then has no rule for times after its last transition
+        if tz_string.is_empty() && footer.len() == 2 {
+            return Ok(None);
+        }
+
         if tz_string.starts_with(':') || tz_string.contains('\0') {
             return Err(TimeZoneError::InvalidTzFile("Invalid footer"));
         }
